@@ -12,14 +12,18 @@ def ibzDiv (a b : Int) : Int × Int := (Int.tdiv a b, Int.tmod a b)
 /-- `ibz_gcd`: `mpz_gcd`, always non-negative. -/
 def ibzGcd (a b : Int) : Int := (Int.gcd a b : Int)
 
-/-- Bezout coefficients of two naturals by the Euclidean algorithm: `s*a + t*b = gcd a b`. -/
-def egcd (a b : Nat) : Int × Int :=
-  if h : b = 0 then (1, 0)
-  else
-    let st := egcd b (a % b)
-    (st.2, st.1 - ((a / b : Nat) : Int) * st.2)
-termination_by b
-decreasing_by exact Nat.mod_lt _ (Nat.pos_of_ne_zero h)
+/-- Bezout coefficients of two naturals by the Euclidean algorithm: `s*a + t*b = gcd a b`
+    (structural recursion on a fuel argument so that the kernel can evaluate it; `b + 1` steps always suffice
+    because the second argument strictly decreases). -/
+def egcdAux : Nat → Nat → Nat → Int × Int
+  | 0, _, _ => (1, 0)
+  | fuel + 1, a, b =>
+    if b = 0 then (1, 0)
+    else
+      let st := egcdAux fuel b (a % b)
+      (st.2, st.1 - ((a / b : Nat) : Int) * st.2)
+
+def egcd (a b : Nat) : Int × Int := egcdAux (b + 1) a b
 
 def sgn (a : Int) : Int := if a < 0 then -1 else if a = 0 then 0 else 1
 
@@ -61,7 +65,7 @@ deriving DecidableEq, Repr, Inhabited
 
 namespace Vec4
 def get (v : Vec4) : Nat → Int
-  | 0 => v.x0 | 1 => v.x1 | 2 => v.x2 | _ => v.x3
+  | 0 => v.x0 | 1 => v.x1 | 2 => v.x2 | 3 => v.x3 | _ => 0
 def ofFn (f : Nat → Int) : Vec4 := ⟨f 0, f 1, f 2, f 3⟩
 def zero : Vec4 := ⟨0, 0, 0, 0⟩
 def map (f : Int → Int) (v : Vec4) : Vec4 := ⟨f v.x0, f v.x1, f v.x2, f v.x3⟩
